@@ -40,6 +40,25 @@ Warns(doc) == (ShouldHave \ doc # {}) \/ ({"masses", "mass_numbers"} \subseteq d
 \* defaults the documentation states for omitted keys
 DefaultOf(k) == CASE k = "molecular_charge" -> "0" [] k = "molecular_multiplicity" -> "1" [] OTHER -> "none"
 
+(* ---- input and output documents (a molecule document nested under "molecule") ---- *)
+InRequired == {"molecule", "driver", "model"}
+InOptional == {"schema_name", "schema_version", "keywords", "extras", "id", "protocols", "provenance"}
+OutRequired == {"provenance", "properties", "success", "return_result"}
+OutOptional == {"error", "stderr", "stdout", "wavefunction"}
+IOUnknown == {"x_custom_in"}
+IOKeys(kind) == InRequired \cup InOptional \cup IOUnknown \cup (IF kind = "output" THEN OutRequired \cup OutOptional ELSE {})
+PlaceIO(kind, k) ==
+  CASE k = "molecule" -> "attr:atnums"                                   \* the nested molecule is loaded as the molecule
+    [] k = "model" -> "attr:lot"                                         \* method -> lot, basis -> obasis_name
+    [] k = "protocols" -> "extra:input.protocols"                        \* keys prefixed with keep_
+    [] k \in {"driver", "keywords", "extras", "id", "provenance", "schema_name", "schema_version"} -> "extra:input." \o k
+    [] k \in IOUnknown -> "extra:input.unparsed." \o k
+    [] k = "provenance" /\ kind = "output" -> "extra:input.provenance"
+    [] OTHER -> "extra:output." \o k                                     \* properties, success, return_result, error, stderr, stdout, wavefunction
+OutcomeIO(kind, doc) == IF InRequired \subseteq doc /\ (kind = "output" => OutRequired \subseteq doc) THEN "loaded" ELSE "LoadError"
+\* distinct keys never share a place, whatever subset is present
+ASSUME \A kind \in {"input", "output"} : \A a, b \in IOKeys(kind) : a # b => PlaceIO(kind, a) # PlaceIO(kind, b)
+
 (* ---- the abstract loader / writer pair, for TLC ---- *)
 \* the object as the set of places that hold a value
 Load(doc) == {Place(doc, k) : k \in doc}
